@@ -169,4 +169,11 @@ int lha_arch_symlink(char *path, char *target)
 	return symlink(target, path) == 0;
 }
 
+int lha_arch_is_symlink(char *path)
+{
+	struct stat statbuf;
+
+	return lstat(path, &statbuf) == 0 && S_ISLNK(statbuf.st_mode);
+}
+
 #endif /* LHA_ARCH_UNIX */
